@@ -9,7 +9,8 @@ HARNESSES = [
     Harness("src/types.rs", "types_c13", "c13_category_leaf_cells", cost=90, timeout=1200,
             desc="fixnum cells are in class Integer", bounds="56-bit", covers_required=False),
 ]
-ENCODED = ["Unifier::unify_fixnum", "Unifier::unify_big_integer", "Unifier::unify_big_rational",
+ENCODED = ["Number::{cmp, eq} and the usize variants: all 40 representation arms (exact domain "
+           "between integers/rationals, lossless, consistent)", "Unifier::unify_fixnum", "Unifier::unify_big_integer", "Unifier::unify_big_rational",
            "HeapCellValue::order_category", "(index keys: see C06)"]
 ASSUME = ["dashu's num_eq/eq compare denoted values (trusted; IBig::num_eq(&i64) was checked on "
           "stack values in round 0)",
@@ -21,8 +22,23 @@ OUTSIDE = ("every integer-taking builtin in system_calls.rs, the database, sorti
 
 
 def mpost(results):
-    from vlib.mirsmt import c05
-    return c05.run()
+    from vlib.mirsmt import c05, numarms
+    from vlib.common import EXIT_VIOLATION, EXIT_INCONCLUSIVE
+    r1 = c05.run()
+    r2 = numarms.run(label="C05")
+    out = dict(r1)
+    out["evaluations"] = r1.get("evaluations", 0) + r2.get("evaluations", 0)
+    out["distinct_nontrivial"] = r1.get("distinct_nontrivial", 0) + r2.get("distinct_nontrivial", 0)
+    out["samples"] = r1.get("samples", []) + r2.get("samples", [])
+    for k, v in r2.items():
+        if k.startswith("numarms"):
+            out[k] = v
+    ex = [r.get("exit", 0) for r in (r1, r2)]
+    if EXIT_VIOLATION in ex:
+        out["exit"] = EXIT_VIOLATION
+    elif EXIT_INCONCLUSIVE in ex:
+        out["exit"] = EXIT_INCONCLUSIVE
+    return out
 
 
 def run(tier):
